@@ -1,0 +1,36 @@
+//go:build verif
+
+package regulator
+
+// Verification hook (build tag verif): a read-only snapshot of the regulator's
+// internal bookkeeping, so that a test harness can tell a dropped player from one
+// that is legitimately waiting in the queue.
+
+type VerifState struct {
+	Status       int
+	PlayerCount  int
+	TableCount   int
+	WaitingQueue []string
+	Tables       map[string]Table
+}
+
+// VerifSnapshot returns a copy of the regulator's state; nil if r is not the built-in regulator
+func VerifSnapshot(r Regulator) *VerifState {
+	rr, ok := r.(*regulator)
+	if !ok {
+		return nil
+	}
+	rr.mu.RLock()
+	defer rr.mu.RUnlock()
+	s := &VerifState{
+		Status:       int(rr.status),
+		PlayerCount:  rr.playerCount,
+		TableCount:   rr.tableCount,
+		WaitingQueue: append([]string{}, rr.waitingQueue...),
+		Tables:       make(map[string]Table),
+	}
+	for id, t := range rr.tables {
+		s.Tables[id] = *t
+	}
+	return s
+}
